@@ -293,7 +293,14 @@ func intersect(a []string, b []string) []string {
 // the call; if the manager performed no final write-out (nothing to stop) the packets are delivered
 // right after the call - the captures are untouched by such an update, so this is the same state.
 // It returns the interfaces whose window packet went to a capture that was stopped afterwards.
-func doUpdate(d *domain, w *world, c Cfg, win []string, before []string) (f *failure, lostOn []string, mach string) {
+//
+// memBefore gives, per interface, the packets the specification has in memory before the update.  A
+// capture that is stopped by the update although no write-out passed the write-out handler loses them:
+// that is a verdict on the code, not a failure of the harness.  When the specification has nothing in
+// memory there the window packet cannot be placed and the rest of the behaviour is not judged.
+const inconclusive = "INCONCLUSIVE"
+
+func doUpdate(d *domain, w *world, c Cfg, win []string, before []string, memBefore map[string]int) (f *failure, lostOn []string, mach string) {
 	target := intersect(win, before)
 	startsBefore := map[string]int{}
 	w.mu.Lock()
@@ -342,7 +349,11 @@ func doUpdate(d *domain, w *world, c Cfg, win []string, before []string) (f *fai
 			continue
 		}
 		if !stillSame[i] {
-			return nil, nil, fmt.Sprintf("capture on %s was stopped without a final write-out passing the write-out handler", i)
+			if memBefore[i] > 0 {
+				return &failure{Msg: fmt.Sprintf("Manager.Update(%v) stopped the capture on %s without a final write-out: the %d packets it held in memory are lost", c, i, memBefore[i]),
+					Desc: map[string]any{"cls": "stopped-without-final-writeout"}}, nil, ""
+			}
+			return nil, nil, inconclusive
 		}
 		late = append(late, i)
 	}
@@ -352,7 +363,7 @@ func doUpdate(d *domain, w *world, c Cfg, win []string, before []string) (f *fai
 	return nil, lostOn, ""
 }
 
-type stats struct{ steps, updates, packets, managers int }
+type stats struct{ steps, updates, packets, managers, inconclusive int }
 
 // runBehaviour executes one behaviour of ReconfigGen on a fresh manager.
 func runBehaviour(d *domain, beh []step, st *stats, corrupt bool) (*failure, string) {
@@ -385,7 +396,11 @@ func runBehaviour(d *domain, beh []step, st *stats, corrupt bool) (*failure, str
 				startsBefore[k] = v
 			}
 			w.mu.Unlock()
-			f, lostOn, mach := doUpdate(d, w, cur, s.Act.Win, before)
+			memBefore := map[string]int{}
+			if i > 0 {
+				memBefore = beh[i-1].Exp.Log
+			}
+			f, lostOn, mach := doUpdate(d, w, cur, s.Act.Win, before, memBefore)
 			w.mu.Lock()
 			for _, b := range before {
 				// the interface had a capture before this update and got a new one in it
@@ -394,6 +409,10 @@ func runBehaviour(d *domain, beh []step, st *stats, corrupt bool) (*failure, str
 				}
 			}
 			w.mu.Unlock()
+			if mach == inconclusive {
+				st.inconclusive++
+				return nil, ""
+			}
 			if mach != "" {
 				return nil, fmt.Sprintf("step %d: %s", i, mach)
 			}
@@ -504,6 +523,7 @@ func Replay(in io.Reader, out io.Writer, negative bool, workers int) {
 		tot.updates += oc.st.updates
 		tot.packets += oc.st.packets
 		tot.managers += oc.st.managers
+		tot.inconclusive += oc.st.inconclusive
 		if oc.f != nil {
 			bad++
 			oc.f.Desc["binding"] = "F"
@@ -512,7 +532,7 @@ func Replay(in io.Reader, out io.Writer, negative bool, workers int) {
 		}
 	}
 	o.Emit(map[string]any{"summary": true, "behaviours": len(behs), "steps": tot.steps, "updates": tot.updates,
-		"packets": tot.packets, "managers": tot.managers, "failed": bad})
+		"packets": tot.packets, "managers": tot.managers, "inconclusive": tot.inconclusive, "failed": bad})
 }
 
 // ---------------------------------------------------------------- B driver
@@ -677,7 +697,7 @@ func driveOne(d *domain, pool []Cfg, hist []int, h, m int) ([]event, string) {
 		var win []string
 		_ = k
 		c := pool[ci]
-		f, _, mach := doUpdate(d, w, c, win, before)
+		f, _, mach := doUpdate(d, w, c, win, before, nil)
 		if mach != "" {
 			return nil, mach
 		}
